@@ -26,7 +26,11 @@ func ifaceMethods(t types.Type) map[string]*types.Func {
 	return out
 }
 
-func c37(c *an.Check) {
+func c37(c *an.Check) { equivCheck(c, nil) }
+
+// equivCheck runs the EQUIV obligations over all directive IsEquivalent implementations (only == nil) or over those
+// selected by only (other properties that rest on one directive's de-duplication).
+func equivCheck(c *an.Check, only func(*ssa.Function) bool) {
 	p := c.P
 	dp := p.All[dirPkg]
 	if dp == nil || dp.Types == nil {
@@ -54,7 +58,18 @@ func c37(c *an.Check) {
 		impls = append(impls, fn)
 	}
 	sort.Slice(impls, func(i, j int) bool { return an.FuncName(impls[i]) < an.FuncName(impls[j]) })
-	c.Require(len(impls) >= 14, "EQUIV", "IsEquivalent implementations found", nil, "", len(impls), fmt.Sprintf("%d directive types", len(impls)), fmt.Sprintf("only %d IsEquivalent implementations found, 14 confirmed by reading", len(impls)))
+	if only != nil {
+		var sel []*ssa.Function
+		for _, f := range impls {
+			if only(f) {
+				sel = append(sel, f)
+			}
+		}
+		c.Require(len(sel) >= 1, "EQUIV", "selected IsEquivalent implementation found", nil, "", len(sel), "directive type resolved", "unresolved anchor: the directive's IsEquivalent was not found")
+		impls = sel
+	} else {
+		c.Require(len(impls) >= 14, "EQUIV", "IsEquivalent implementations found", nil, "", len(impls), fmt.Sprintf("%d directive types", len(impls)), fmt.Sprintf("only %d IsEquivalent implementations found, 14 confirmed by reading", len(impls)))
+	}
 	all := p.AllRepoFuncs()
 	for _, eq := range impls {
 		name := an.FuncName(eq)
@@ -142,6 +157,12 @@ func c37(c *an.Check) {
 					}
 					if feedsComparison(p, eq, call) {
 						found = true
+						if proj := onlyProjections(p, eq, call); proj != "" {
+							c.Require(false, "EQUIV", fmt.Sprintf("%s compares the whole value of %s", name, m), eq, "", 1, "",
+								fmt.Sprintf("other.%s() takes part in the equivalence test only through its field %s: directives whose %s differ elsewhere are merged", m, proj, m))
+						} else {
+							c.Require(true, "EQUIV", fmt.Sprintf("%s compares the whole value of %s", name, m), eq, "", 1, "the getter's value (or its String()/Equal form) is compared, not a projection of it", "")
+						}
 					}
 				}
 			}
@@ -312,4 +333,67 @@ func init() {
 		Explain:     "Decides for every IsEquivalent implementation of a directive type in the repository (found through types.Implements(directive.Directive), ≥14): either it returns constant false, or — with I the interface it asserts on the other directive and P' the getters of I that some non-directive repository code actually reads (call-site calibration) — other.p() feeds an equality test for every p in P', a true verdict is reachable only when the assertion succeeded, and each such comparison pairs other.p() with the receiver's own p (getter or the field its getter returns).",
 		NotCov:      "semantic equality of the compared representations (e.g. URL.String()), and getters that no repository code reads (reported as calibration notes).",
 		Assumptions: commonAssumptions})
+}
+
+// onlyProjections: every equality test fed by call reads it through a struct-field projection (x.M().Field); returns
+// that field's name, or "" when some test compares the value itself / its String() / Equal form.
+func onlyProjections(p *an.Prog, fn *ssa.Function, call *ssa.Call) string {
+	proj, whole := "", false
+	viaField := func(o ssa.Value) string {
+		name := ""
+		p.DependsOn(o, func(v ssa.Value) bool {
+			var x ssa.Value
+			var f *types.Var
+			switch t := v.(type) {
+			case *ssa.FieldAddr:
+				x, f = t.X, an.FieldOfAddr(t)
+			case *ssa.Field:
+				x = t.X
+				if st, ok := t.X.Type().Underlying().(*types.Struct); ok {
+					f = st.Field(t.Field)
+				}
+			default:
+				return false
+			}
+			if x == ssa.Value(call) || p.DependsOn(x, func(w ssa.Value) bool { return w == ssa.Value(call) }) {
+				if f != nil {
+					name = f.Name()
+				} else {
+					name = "?"
+				}
+				return true
+			}
+			return false
+		})
+		return name
+	}
+	for _, b := range fn.Blocks {
+		for _, ins := range b.Instrs {
+			var ops []ssa.Value
+			switch x := ins.(type) {
+			case *ssa.BinOp:
+				if x.Op == token.EQL || x.Op == token.NEQ {
+					ops = []ssa.Value{x.X, x.Y}
+				}
+			case *ssa.Call:
+				if fo := an.CallObj(x.Common()); fo != nil && (fo.Name() == "Equal" || fo.Name() == "Equals" || fo.Name() == "EqualVT" || fo.Name() == "Compare") && x != call {
+					ops = an.CallArgs(x.Common())
+				}
+			}
+			for _, o := range ops {
+				if !p.DependsOn(o, func(v ssa.Value) bool { return v == ssa.Value(call) }) && o != ssa.Value(call) {
+					continue
+				}
+				if f := viaField(o); f != "" {
+					proj = f
+				} else {
+					whole = true
+				}
+			}
+		}
+	}
+	if whole {
+		return ""
+	}
+	return proj
 }
